@@ -357,3 +357,90 @@ pub fn chain_program(i: u64, sink: &mut ChildSink) {
     });
     let _ = ReadWords::<u8, Stack>::read(&mut Vec::<u8>::new());
 }
+
+// ---------------------------------------------------------------- user-written distributions behind the quantizer
+// `LeakyQuantizer::quantize` accepts any `D: probability::distribution::{Distribution, Inverse}` — safe traits a user
+// can implement with a cdf that is not a cdf at all. Whatever the cdf returns, safe code must not reach
+// `NonZero::new_unchecked(0)` / `get_unchecked` out of bounds. (Wrong symbols, panics and overflow panics are the
+// user's problem here: a broken cdf voids every functional guarantee, only memory safety remains.)
+struct UserDist { shape: u8, hint: u8 }
+impl probability::distribution::Distribution for UserDist {
+    type Value = f64;
+    fn distribution(&self, x: f64) -> f64 {
+        match self.shape {
+            0 => 2.0, 1 => 1.0, 2 => 0.0, 3 => -1.0, 4 => f64::NAN, 5 => f64::INFINITY, 6 => f64::NEG_INFINITY, 7 => 1e300,
+            8 => 1.0 - 1.0 / (1.0 + (-x / 1.7).exp()),          // decreasing
+            9 => if x < 0.5 { 0.0 } else { 1.0 },               // a step (a valid cdf)
+            10 => (x * 0.37).abs().fract(),                       // sawtooth
+            11 => 1.0 / (1.0 + (-(x - 0.3) / 1.7).exp()),        // a valid cdf (control)
+            12 => x,                                              // unbounded
+            13 => 1e-300, 14 => 1.0 + 1e-9,
+            15 => if x < 0.5 { 1.0 } else { 0.0 },               // a step down
+            16 => if (x.floor() as i64) % 2 == 0 { 0.9 } else { 0.1 }, // zig-zag
+            _ => 0.5,
+        }
+    }
+}
+impl probability::distribution::Inverse for UserDist {
+    fn inverse(&self, p: f64) -> f64 {
+        match self.hint { 0 => 0.0, 1 => -1e9, 2 => 1e9, 3 => f64::NAN, 4 => f64::INFINITY, 5 => 0.3 + 1.7 * (p / (1.0 - p)).ln(), _ => 1.0 }
+    }
+}
+const DIST_SHAPES: u64 = 18;
+const DIST_HINTS: u64 = 7;
+const DIST_CONFIGS: u64 = 8;
+const DIST_SUPPORTS: u64 = 4;
+pub fn dist_total() -> u64 { DIST_SHAPES * DIST_HINTS * DIST_CONFIGS * DIST_SUPPORTS }
+
+fn dist_case<S, P, const PREC: usize>(sink: &mut ChildSink, i: u64, shape: u8, hint: u8, lo: S, hi: S, name: &str)
+where
+    S: num_traits::PrimInt + num_traits::AsPrimitive<P> + num_traits::AsPrimitive<usize> + Into<f64> + num_traits::WrappingSub + num_traits::WrappingAdd + core::fmt::Debug + std::panic::RefUnwindSafe + 'static,
+    P: constriction::BitArray + Into<f64> + num_traits::AsPrimitive<usize> + std::panic::RefUnwindSafe,
+    f64: num_traits::AsPrimitive<P> + num_traits::AsPrimitive<S>,
+    usize: num_traits::AsPrimitive<P>,
+{
+    sink.count("hostile_programs", 1);
+    sink.count("user_distributions", 1);
+    let q = LeakyQuantizer::<f64, S, P, PREC>::new(lo..=hi);
+    let m = q.quantize(UserDist { shape, hint });
+    let total: usize = if PREC >= 20 { 0 } else { 1usize << PREC };
+    let mut quantiles: Vec<usize> = if total != 0 && total <= 4096 { (0..total).collect() } else { vec![] };
+    if quantiles.is_empty() {
+        let top = if PREC >= usize::BITS as usize { usize::MAX } else { (1usize << PREC) - 1 };
+        quantiles = vec![0, 1, 2, top / 3, top / 2, top / 2 + 1, top - 2, top - 1, top];
+    }
+    let (mut values, mut panics) = (0u64, 0u64);
+    for &x in &quantiles {
+        let xp: P = num_traits::AsPrimitive::<P>::as_(x);
+        match guarded(|| m.quantile_function(xp)) { Outcome::Value(_) => values += 1, _ => panics += 1 }
+    }
+    let mut syms = vec![lo, hi, lo + S::one(), hi - S::one()];
+    let mut s = lo; let mut k = 0;
+    while s < hi && k < 40 { syms.push(s); s = s + S::one(); k += 1; }
+    for s in syms {
+        match guarded(|| m.left_cumulative_and_probability(s)) { Outcome::Value(_) => values += 1, _ => panics += 1 }
+    }
+    match guarded(|| m.symbol_table().take(300).count()) { Outcome::Value(_) => values += 1, _ => panics += 1 }
+    let _ = (i, name);
+    sink.count("user_distribution_queries_answered", values);
+    sink.count("user_distribution_queries_panicking", panics);
+    sink.count(if panics == 0 { "programs_ending_in_a_value_or_error" } else { "programs_ending_in_a_clean_panic" }, 1);
+}
+
+pub fn dist_program(i: u64, sink: &mut ChildSink) {
+    let mut k = i;
+    let sup = (k % DIST_SUPPORTS) as usize; k /= DIST_SUPPORTS;
+    let cfg = k % DIST_CONFIGS; k /= DIST_CONFIGS;
+    let hint = (k % DIST_HINTS) as u8; k /= DIST_HINTS;
+    let shape = k as u8;
+    match cfg {
+        0 => { let s = [(0i8, 1i8), (-5, 5), (-128, 127), (0, 100)][sup]; dist_case::<i8, u8, 8>(sink, i, shape, hint, s.0, s.1, "i8/u8/8") }
+        1 => { let s = [(0i8, 1i8), (-5, 5), (-7, 7), (100, 110)][sup]; dist_case::<i8, u8, 4>(sink, i, shape, hint, s.0, s.1, "i8/u8/4") }
+        2 => { let s = [(0u8, 1u8), (0, 255), (250, 255), (3, 100)][sup]; dist_case::<u8, u8, 8>(sink, i, shape, hint, s.0, s.1, "u8/u8/8") }
+        3 => { let s = [(0i16, 1i16), (-5, 5), (-32768, 32767), (-100, 30000)][sup]; dist_case::<i16, u16, 16>(sink, i, shape, hint, s.0, s.1, "i16/u16/16") }
+        4 => { let s = [(0i16, 1i16), (-5, 5), (-2000, 2000), (32000, 32767)][sup]; dist_case::<i16, u16, 12>(sink, i, shape, hint, s.0, s.1, "i16/u16/12") }
+        5 => { let s = [(0i32, 1i32), (-5, 5), (-(1 << 20), 1 << 20), (i32::MAX - 3, i32::MAX)][sup]; dist_case::<i32, u32, 24>(sink, i, shape, hint, s.0, s.1, "i32/u32/24") }
+        6 => { let s = [(0i32, 1i32), (-5, 5), (i32::MIN, i32::MAX), (i32::MIN, i32::MIN + 2)][sup]; dist_case::<i32, u32, 32>(sink, i, shape, hint, s.0, s.1, "i32/u32/32") }
+        _ => { let s = [(0u8, 1u8), (0, 255), (250, 255), (3, 100)][sup]; dist_case::<u8, u16, 12>(sink, i, shape, hint, s.0, s.1, "u8/u16/12") }
+    }
+}
